@@ -25,7 +25,7 @@ RULE = ("per-run seed -> a corpus of 40-300 documents over a 5-9 word vocabulary
 ASSUMPTIONS = ["differential oracle: the exhaustive ranking search(q, limit=None) of the same searcher is the reference (its own correctness is C01/C09)",
                "scores are compared with relative tolerance 1e-9; the exhaustive ranking must itself be ordered by descending score, ascending document number",
                "the corpus and query dimensions are sampled workload; the simulator contributes segment layouts, deletion sets, block sizes and collector knobs"]
-TIERS = {"quick": {"runs": 320, "time_budget": 110, "audit_every": 40},
+TIERS = {"quick": {"runs": 480, "time_budget": 110, "audit_every": 40},
          "thorough": {"runs": 12000, "time_budget": 1600, "audit_every": 100}}
 
 WEIGHTINGS = ["bm25f", "bm25f", "bm25f_params", "bm25f_fieldb", "tfidf", "frequency", "pl2", "dfree", "multi", "reverse", "function"]
@@ -80,11 +80,17 @@ def generate(seed, tier):
     mrng = random.Random("%s/mode" % seed)
     want = [n for n in ("kw", "tb", "n") if mrng.random() < 0.6]
     cfg = RunConfig(crng, allow=["kw", "tb", "n", "tc"], want=want,
-                    force={"long_text_p": mrng.choice((0.0, 0.1)), "limitmb": 128, "inlinelimit": 1})
+                    force={"long_text_p": mrng.choice((0.0, 0.1)), "limitmb": 128,
+                           # short posting lists inlined in the term dictionary are read through ListMatcher,
+                           # which has its own block-quality methods
+                           "inlinelimit": random.Random("%s/inline" % seed).choice((1, 1, 1, 3, 8, 20))})
     cfg.vocab = cfg.vocab[:mrng.randint(5, 9)]
     cfg.blocklimit = mrng.choice((1, 2, 3, 4, 8, 16))
     dg = DocGen(cfg, wrng, nkeys=10 ** 6)
     ndocs = mrng.choice((40, 80, 150, 300))
+    drng = random.Random("%s/drift" % seed)
+    if drng.random() < 0.4:
+        dg.drift = (drng.sample(cfg.vocab, drng.randint(1, 2)), int(ndocs * drng.choice((0.15, 0.3, 0.5))))
     ncommits = mrng.randint(1, 4)
     deletes = mrng.random() < 0.5
     ops = []
@@ -107,6 +113,22 @@ def generate(seed, tier):
     qr = random.Random("%s/queries" % seed)
     rec["queries"] = ([Q.gen_query(qr, cfg, depth=qr.choice((1, 2, 2, 3))) for _ in range(5)]
                       + [Q.gen_shaped_query(qr, cfg) for _ in range(3)])
+    if dg.drift is not None:
+        # queries over the words that ran out: a two-clause Or with a branch that is exhausted early,
+        # under an intersection / optional / union parent
+        tf = [f for f in cfg.fields if f in ("t", "tc", "tb")]
+        for _ in range(3):
+            dead = ["term", drng.choice(tf), drng.choice(dg.drift[0])]
+            t1 = ["term", drng.choice(tf), drng.choice(cfg.vocab)]
+            t2 = ["term", drng.choice(tf), drng.choice(cfg.vocab)]
+            t3 = ["term", drng.choice(tf), drng.choice(cfg.vocab)]
+            rec["queries"].append(drng.choice((
+                ["and", [["or", [dead, t1]], t2]],
+                ["and", [t2, ["or", [t1, dead]]]],
+                ["andmaybe", t2, ["or", [dead, t1]]],
+                ["or", [["or", [dead, t1]], ["and", [t2, t3]]]],
+                ["andmaybe", ["or", [dead, t1]], t2],
+            )))
     w = mrng.choice(WEIGHTINGS)
     wspec = [w]
     if w == "bm25f_params":
@@ -117,6 +139,8 @@ def generate(seed, tier):
         wspec = [w, mrng.choice((0.5, 1.0, 3.0))]
     rec["weighting"] = wspec
     rec["replace"] = mrng.choice((1, 2, 10, 10))
+    # 0 = the collector never rewrites the matcher tree (exhausted branches stay in it), 50 = rarely
+    rec["replace"] = random.Random("%s/replace" % seed).choice((rec["replace"], rec["replace"], 0, 50))
     rec["extras"] = mrng.choice(("none", "none", "filter", "mask", "terms"))
     rec["filterq"] = Q.gen_query(qr, cfg, depth=1, simple=True)
     # collapsing (statement: "with and without filter/mask/collapse/terms recording"): the limited collapsed
